@@ -1651,9 +1651,10 @@ func c15AcceptPassesWakeupOn(c *Ctx) {
 	c.Floor(R, "advances of nextStreamToAccept in AcceptStream", n, 2)
 }
 
-// C18.10: a body (or a DATA frame) that ends before what was declared is an error, on the receiving and on the sending
-// side: body.Read and Stream.Read turn an early io.EOF into io.ErrUnexpectedEOF, sendRequestBody refuses a body whose
-// length differs from Request.ContentLength in either direction.
+// C18.10: a body that ends before its declared Content-Length is an error, on the receiving and on the sending side:
+// body.Read turns an early io.EOF into io.ErrUnexpectedEOF, sendRequestBody refuses a body whose length differs from
+// Request.ContentLength in either direction. (A DATA frame cut short by a clean FIN without a Content-Length is NOT
+// covered: the repository's own pinned test TestHTTPDeadlines/write_deadline expects a clean EOF there.)
 func c18ShortBodies(c *Ctx) {
 	const R = "C18.10"
 	isUnexpectedEOF := func(v ssa.Value) bool {
@@ -1674,7 +1675,7 @@ func c18ShortBodies(c *Ctx) {
 	}
 	for _, spec := range []struct {
 		recv, name, field, what string
-	}{{"body", "Read", "remainingContentLength", "declared Content-Length"}, {"Stream", "Read", "bytesRemainingInFrame", "DATA frame length"}} {
+	}{{"body", "Read", "remainingContentLength", "declared Content-Length"}} {
 		f := c.fn(h3, spec.recv, spec.name)
 		rem := c.fld(h3, spec.recv, spec.field)
 		found := false
@@ -1891,6 +1892,169 @@ func c10SpecLengthsAndBudget(c *Ctx) {
 	})
 	c.Check(okBudget, R, "budget:frame budget = packet size − long header − AEAD overhead", c.P.Pos(fb.Pos()),
 		"validateInitialFlight holds every planned payload against this budget: without the 16-byte tag a payload up to 16 bytes too large is accepted and the Initial leaves larger than the spec's packet size")
+}
+
+// C05.11: the header-protection key has the cipher suite's key length (16 bytes for AES-128 and ChaCha20's... 32 for
+// AES-256 / ChaCha20): both header protectors expand the "hp" label to suite.KeyLen bytes.
+func c05HPKeyLength(c *Ctx) {
+	const R = "C05.11"
+	exp := c.obj(hsk, "", "hkdfExpandLabel")
+	keyLen := c.fld(hsk, "cipherSuite", "KeyLen")
+	for _, name := range []string{"newAESHeaderProtector", "newChaChaHeaderProtector"} {
+		f := c.fn(hsk, "", name)
+		calls := findInstrs(f, CallsTo(exp))
+		c.Floor(R, "hkdfExpandLabel calls in "+name, len(calls), 1)
+		for i, in := range calls {
+			args := in.(ssa.CallInstruction).Common().Args
+			ok := len(args) == 5 && (loadsPath(args[4], keyLen) || func() bool {
+				// suite is passed by value: Field of the parameter
+				fl, base := loadedField(stripConv(args[4]))
+				_ = base
+				return fl == keyLen
+			}())
+			c.Check(ok, R, fmt.Sprintf("len:%s derives an hp key of suite.KeyLen bytes#%d", name, i+1), c.P.InstrPos(in),
+				"RFC 9001 §5.4: the header protection key has the length of the AEAD key; a fixed 16 silently turns AES-256 header protection into AES-128 (symmetric between two such endpoints, wrong towards everyone else)")
+		}
+	}
+}
+
+// C09.15: the base offset handed to a per-datagram builder is the LOWEST offset of the CRYPTO frames being re-framed
+// (the scan keeps a candidate only if it is lower than the current one), and QUICCryptoRange.resolve rejects a range
+// whose resolved end lies before its resolved start (both resolved values, not the raw offset).
+func c09BaseOffsetAndRange(c *Ctx) {
+	const R = "C09.15"
+	f := c.fn("", "uPacketPacker", "MarshalInitialPacketPayload")
+	bfd := c.obj("", "QUICFrameBuilderEx", "BuildForDatagram")
+	n := 0
+	for _, in := range findInstrs(f, CallsTo(bfd)) {
+		args := in.(ssa.CallInstruction).Common().Args
+		if len(args) < 3 {
+			continue
+		}
+		n++
+		base := args[len(args)-1]
+		// follow φs to the loop-carried minimum: some φ in the closure has an incoming value that is taken on the
+		// `candidate < φ` edge
+		okMin := false
+		seen := map[ssa.Value]bool{}
+		var walk func(v ssa.Value, d int)
+		walk = func(v ssa.Value, d int) {
+			if v == nil || d > 8 || seen[v] {
+				return
+			}
+			seen[v] = true
+			ph, ok := v.(*ssa.Phi)
+			if !ok {
+				return
+			}
+			for k, e := range ph.Edges {
+				if _, isK := e.(*ssa.Const); !isK && e != ssa.Value(ph) {
+					if _, isPhi := e.(*ssa.Phi); !isPhi {
+						pred := ph.Block().Preds[k]
+						isThisPhi := func(x ssa.Value) bool { _, p := x.(*ssa.Phi); return p }
+						if dominatedByEdge(pred, Rel{Op: token.LSS, X: Same(e), Y: isThisPhi}, false) || blockIsEdgeSucc(pred, Rel{Op: token.LSS, X: Same(e), Y: isThisPhi}) {
+							okMin = true
+						}
+					}
+				}
+				walk(e, d+1)
+			}
+		}
+		walk(base, 0)
+		c.Check(okMin, R, fmt.Sprintf("min:the base offset is the lowest CRYPTO frame offset#%d", n), c.P.InstrPos(in),
+			"after a loss the retransmitted Initial is built from several CRYPTO frames: with any other offset than the lowest as base every re-framed CRYPTO frame is shifted")
+	}
+	c.Floor(R, "BuildForDatagram calls in MarshalInitialPacketPayload", n, 1)
+	// resolve: end < start is an error, with both values as resolved
+	rf := c.fn("", "QUICCryptoRange", "resolve")
+	okCmp := false
+	eachInstr(rf, func(in ssa.Instruction) {
+		bo, ok := in.(*ssa.BinOp)
+		if !ok || (bo.Op != token.LSS && bo.Op != token.GTR) {
+			return
+		}
+		// neither side is the raw field r.Offset / r.Length, a parameter or a constant: both are computed values (φ / sums)
+		computed := func(v ssa.Value) bool {
+			switch x := stripConv(v).(type) {
+			case *ssa.Phi:
+				return true
+			case *ssa.BinOp:
+				return x.Op == token.ADD
+			}
+			return false
+		}
+		if computed(bo.X) && computed(bo.Y) {
+			okCmp = true
+		}
+	})
+	c.Check(okCmp, R, "range:resolve compares the resolved end with the resolved start", c.P.Pos(rf.Pos()),
+		"an end-relative range with inverted ends must be rejected here: downstream its negative length becomes a 2^64-ish CRYPTO frame length (panic in quicvarint.Append)")
+}
+
+// blockIsEdgeSucc: b is the direct successor of a branch edge that implies r.
+func blockIsEdgeSucc(b *ssa.BasicBlock, r Rel) bool {
+	for _, p := range b.Preds {
+		if len(p.Instrs) == 0 {
+			continue
+		}
+		if ifi, ok := p.Instrs[len(p.Instrs)-1].(*ssa.If); ok {
+			for s := 0; s < 2; s++ {
+				if p.Succs[s] == b && EdgeImplies(ifi, s, r, false) {
+					return true
+				}
+			}
+		}
+	}
+	return false
+}
+
+// C20.8: the pacer converts exactly the elapsed time since the last send into new budget: the argument of
+// timeScaledBandwidth is that difference itself, not a value raised by max(…) or a constant floor.
+func c20PacerElapsedTime(c *Ctx) {
+	const R = "C20.8"
+	f := c.fn(cong, "pacer", "Budget")
+	tsb := c.obj(cong, "pacer", "timeScaledBandwidth")
+	n := 0
+	for _, in := range findInstrs(f, CallsTo(tsb)) {
+		n++
+		args := in.(ssa.CallInstruction).Common().Args
+		arg := args[len(args)-1]
+		raised := false
+		seen := map[ssa.Value]bool{}
+		var walk func(v ssa.Value, d int)
+		walk = func(v ssa.Value, d int) {
+			if v == nil || d > 8 || seen[v] {
+				return
+			}
+			seen[v] = true
+			switch x := stripConv(v).(type) {
+			case *ssa.Call:
+				if b := builtinName(&x.Call); b == "max" {
+					raised = true
+				}
+				for _, a := range x.Call.Args {
+					walk(a, d+1)
+				}
+			case *ssa.BinOp:
+				if x.Op == token.ADD {
+					raised = true
+				}
+				walk(x.X, d+1)
+				walk(x.Y, d+1)
+			case *ssa.Phi:
+				for _, e := range x.Edges {
+					if _, isK := e.(*ssa.Const); isK {
+						raised = true
+					}
+					walk(e, d+1)
+				}
+			}
+		}
+		walk(arg, 0)
+		c.Check(!raised, R, fmt.Sprintf("elapsed:timeScaledBandwidth gets the elapsed time unmodified#%d", n), c.P.InstrPos(in),
+			"any floor on the elapsed time credits bandwidth for time that did not pass, again after every send: over an interval the pacer authorises more than one burst plus 1.25 × bandwidth × time")
+	}
+	c.Floor(R, "timeScaledBandwidth calls in pacer.Budget", n, 1)
 }
 
 // valueOf: the instruction as a value (nil if it is not one).
